@@ -35,7 +35,7 @@ ASSUME = [
     "auto-trait half is a complete decision over the extracted impls: by C13_class_abstraction_complete the extracted bound language (Send, Sync, ?Sized, Sized, T:'a) cannot distinguish two types of the same (send?, sync?, sized?) class, so the 8 classes (64 pairs) stand for all T",
     "T: 'a on an auto-trait impl is taken as implied by well-formedness of the self type K<'a, T> (hypothesis wfFor of the abstraction lemma)",
     "the translator /verif/extract_traits reports impl headers, struct fields and signatures faithfully (fails closed to unknown/other); macro-generated impls are not seen",
-    "probes are compiled with the stable toolchain and features default+unsize+arc-swap (thorough: also nightly + unstable_dropck_eyepatch when the nightly toolchain can build the crate offline)",
+    "probes are compiled with the stable toolchain and features default+unsize+arc-swap and, for the drop-check probes, nightly + unstable_dropck_eyepatch (skipped with a note when the nightly toolchain cannot build the crate offline)",
 ]
 
 
@@ -286,7 +286,7 @@ def _run(ctx):
     configs = ["stable/" + FEATURES]
 
     extra = []
-    if ctx.thorough():
+    if True:   # both tiers: under `#[may_dangle]` the ownership marker is the only thing the drop check has
         extra = nightly_eyepatch(ctx, drv, keys)
         if extra:
             configs.append("nightly/unstable_dropck_eyepatch")
